@@ -209,9 +209,9 @@ func VerifC01_ThriftSlow() {
 		return
 	}
 	xf2 := frame2.(api.XFrame)
-	verif.Assert(string(xf2.GetData().Bytes()) == string(nb), "forwarded body is not the replaced body")
+	verif.Cover("end") // before the assertions: a known finding ends the path at its assertion
 	verif.Assert(xf2.GetRequestId() == id, "request id differs after re-encode")
-	verif.Cover("end")
+	verif.Assert(string(xf2.GetData().Bytes()) == string(nb), "forwarded body is not the replaced body")
 }
 
 // VerifC02_ThriftIDWidth: the id handed to the stream table by
@@ -277,7 +277,7 @@ func VerifC01_ThriftLargeBody() {
 		return
 	}
 	xf2 := frame2.(api.XFrame)
-	verif.Assert(string(xf2.GetData().Bytes()) == string(nb), "forwarded body is not the replaced body")
+	verif.Cover("end") // before the assertions: a known finding ends the path at its assertion
 	verif.Assert(xf2.GetRequestId() == id, "request id differs after re-encode")
-	verif.Cover("end")
+	verif.Assert(string(xf2.GetData().Bytes()) == string(nb), "forwarded body is not the replaced body")
 }
